@@ -195,7 +195,7 @@ pub fn h_memoized_or<M: VMode, Er: VEr, const ZS: bool>() {
             vcover!(true, "memoized or: first succeeds");
             vassert!(!b.called && ok_with::<M, _>(&r, a.out) && s.pos == a.exit_pos, "C11/memoized_or.commits-to-first-success");
         } else {
-            vassert!(b.called && b.calls == 1, "C11/memoized_or.second-alternative-tried-after-first-fails");
+            vassert_finding!(b.called && b.calls == 1, "C11/memoized_or.second-alternative-tried-after-first-fails");
             vassert!(b.entry_pos == s0.pos && b.entry_sec == s0.nsec, "C11/memoized_or.second-alternative-starts-from-entry-state");
             vassert!(r.is_ok() == b.ok, "C11/memoized_or.same-acceptance-as-unmemoized-choice");
             if b.ok {
